@@ -12,8 +12,8 @@ from ..world import OID, PASSWORDS, World, agent_user, collect, make_credentials
 ID = "C18"
 LEVEL = "exploration"
 RULE = ("Seeded histories on one client: a properly nested tree (depth <= 4, 4-30 steps) of configure(k=v), "
-        "`with client.reconfigure(k=v, ...)` blocks left normally, by an exception raised in the block, or by a failing "
-        "request propagating out of it, requests (get, multiget, getnext, walk; some to a missing object), requests into a "
+        "`with client.reconfigure(k=v, ...)` blocks left normally, by an exception raised in the block, by a BaseException (what task "
+        "cancellation or a deadline raises), or by a failing request propagating out of it, requests (get, multiget, getnext, walk; some to a missing object), requests into a "
         "network partition (everything dropped), and unknown setting names for both calls; settings timeout, retries, "
         "credentials of the same family (other community / other user, other level) and of another family (V1, V2C, V3), "
         "context (name, engine id). One reference agent serves v1, v2c and v3 with every community/user of the plan. "
@@ -30,7 +30,7 @@ ASSUMPTIONS = [
     "a v3 request into a partition before discovery has succeeded times out in the discovery exchange, which uses the same "
     "timeout and retries; the transmission count and elapsed time are checked on whichever exchange was attempted",
 ]
-PROBES = ["depth_4", "exit_exception", "exit_failing_request", "family_switch_in_block", "v3_temporarily_v2c",
+PROBES = ["depth_4", "exit_exception", "exit_base_exception", "exit_failing_request", "family_switch_in_block", "v3_temporarily_v2c",
           "v2c_temporarily_v3", "same_family_cred_change", "context_change", "unknown_setting", "partition_timeout",
           "configure_inside_block", "request_after_exit", "v1_spoken", "timeout_override", "retries_override"]
 shrink_lists = [("body",)]
@@ -44,13 +44,18 @@ class BlockExit(Exception):
     """Raised by the harness inside a reconfigure block (exceptional exit)."""
 
 
+class BlockCancelled(BaseException):
+    """Stands for task cancellation / a deadline firing inside the block: not an Exception subclass, like
+    asyncio.CancelledError, KeyboardInterrupt or GeneratorExit."""
+
+
 def total(tier: str) -> int:
     return 3000 if tier == "quick" else 120000
 
 
 def _cred_pool(rng: Any) -> List[dict]:
     pool: List[dict] = [
-        {"version": "v1", "community": "pub-one"},
+        {"version": "v1", "community": "public"},      # same community as the v2c entry below: only the family differs
         {"version": "v2c", "community": "public"},
         {"version": "v2c", "community": "private"},
         {"version": "v3", "user": "noauth", "level": 0},
@@ -97,7 +102,7 @@ def _gen_body(rng: Any, depth: int, budget: List[int], n_creds: int) -> List[dic
         elif depth < 4:
             body.append({"do": "block", "kw": _gen_settings(rng, n_creds),
                          "body": _gen_body(rng, depth + 1, budget, n_creds),
-                         "exit": rng.choice(["normal", "normal", "exception"])})
+                         "exit": rng.choice(["normal", "normal", "exception", "cancelled"])})
             if rng.random() < 0.7:
                 body.append({"do": "request", "op": "get", "missing": False, "propagate": False})
         else:
@@ -442,9 +447,14 @@ async def _drive(plan: dict, client: Any, creds: List[dict], stack: List[dict], 
                         await run_body(item["body"], depth + 1)
                         if item["exit"] == "exception" and violated() is None:
                             raise BlockExit()
+                        if item["exit"] == "cancelled" and violated() is None:
+                            raise BlockCancelled()
                 except BlockExit:
                     how = "exception"
                     probes["exit_exception"] = 1
+                except BlockCancelled:
+                    how = "cancelled"
+                    probes["exit_base_exception"] = 1
                 except Exception as e:  # noqa: BLE001
                     if type(e).__name__ != "NoSuchOID":
                         raise
